@@ -8,7 +8,9 @@ namespace hv {
 namespace {
 ScalarPattern sp_of(const JV &j) {
     if (j.has("c")) return ScalarPattern::concrete(parse_scalar(j.at("c").as_str()));
-    return ScalarPattern::var(j.at("v").as_str());
+    std::vector<const ValueTypeMetaData *> cons;
+    if (auto *c = j.get("cons")) for (auto &x : c->a) cons.push_back(parse_scalar(x.as_str()));
+    return ScalarPattern::var(j.at("v").as_str(), std::move(cons));
 }
 TypePattern tp_of(const JV &j) {
     const std::string &k = j.at("k").as_str();
